@@ -205,8 +205,10 @@ def world_ego():
     return make
 
 
-def world_ls(n_req, with_retry):
-    """unicast requests to an unknown destination race with the LS reply and the retransmit timer"""
+def world_ls(n_req, with_retry, with_beacon=False):
+    """unicast requests to an unknown destination race with the LS reply and the retransmit timer; with_beacon: a third
+    station's beacon is received meanwhile (every reception refreshes the location table, which must keep the placeholder
+    of the destination while the lookup is pending)"""
     def make():
         router, ll = fresh_router("SIMPLE", ls_max=1)
         from flexstack.geonet.service_access_point import (GNDataRequest, PacketTransportType, HeaderType, CommonNH, TrafficClass)
@@ -228,6 +230,10 @@ def world_ls(n_req, with_retry):
         fns.append(lambda: router.gn_data_indicate(reply))
         if with_retry:
             fns.append(lambda: [t.function(*t.args) for t in timers] * 2)       # retransmit, then give up
+        if with_beacon:
+            other = (0, 5, 0x0A0B0C0D8888)
+            bc = stack.beacon_bytes(other, tst, 413800900, 21100900)
+            fns.insert(0, lambda: router.gn_data_indicate(bc))
 
         def check(sched, log):
             bad = []
@@ -294,6 +300,7 @@ def run(ctx):
                 ("ego", world_ego(), 2, 120 if quick else 3000, 40 if quick else 800),
                 ("ls_2", world_ls(2, False), 2, 200 if quick else 5000, 60 if quick else 1200),
                 ("ls_2_retry", world_ls(2, True), 2, 200 if quick else 5000, 60 if quick else 1200),
+                ("ls_2_beacon", world_ls(2, False, True), 2, 150 if quick else 4000, 50 if quick else 1000),
                 ("mixed", world_mixed(), 1 if quick else 2, 150 if quick else 5000, 50 if quick else 1200)]
         if not quick:
             plan += [("sn_3x3", world_sn(3, 3), 2, 4000, 800), ("ls_3_retry", world_ls(3, True), 2, 5000, 1200)]
